@@ -1,5 +1,115 @@
 import FcpptModel.Prelude.Proto
-/-! Driver for C15 — placeholder until the property's model is built. -/
+import FcpptModel.Model.C15
+/-!
+Driver for C15.  One operation per line (the harness `harness/c15.cpp` implements the same protocol).
+Byte strings travel as lowercase hex (`-` = empty); values of integer types as decimal; `float`/`double`
+as the unsigned decimal value of their bit pattern.
+
+binary part (types `u8 i8 u16 i16 u32 i32 u64 i64 f32 f64`, byte order `L`/`B`):
+* `native`                → the machine's byte order (the model is run with `little`)
+* `bin T E v`             → `w=<bytes written> r=<read back> r2=<second read> s=<swap> ss=<swap swap> c=<convert> cc=<convert convert>`
+* `bins T E lo n`         → digest of the `bin` lines for `v = lo … lo+n-1`
+* `seq T E v1,v2,…`       → all values written to one stream, its bytes, all read back plus one read too many
+* `rd T E <hex>`          → `io::read` until it fails: the values, then `none`
+* `revmem <hex>`          → `reverse_mem` on a buffer of exactly that size
+-/
 namespace Fcppt.C15.Drv
-def main : IO Unit := Fcppt.Proto.run (fun _ => "not-built")
+open Fcppt.Proto
+
+def native : Endian := .little
+
+def hexByte (b : Nat) : String := String.ofList [hexDigit (b / 16), hexDigit (b % 16)]
+def hexOf (l : List Nat) : String := if l.isEmpty then "-" else String.join (l.map hexByte)
+
+def hexVal (c : Char) : Option Nat :=
+  if '0' ≤ c ∧ c ≤ '9' then some (c.toNat - 48) else if 'a' ≤ c ∧ c ≤ 'f' then some (c.toNat - 87) else none
+
+def parseHexAux : List Char → Option (List Nat)
+  | [] => some []
+  | a :: b :: r => do
+    let x ← hexVal a; let y ← hexVal b; let t ← parseHexAux r
+    pure ((16 * x + y) :: t)
+  | _ => none
+
+def parseHex (s : String) : Option (List Nat) := if s = "-" then some [] else parseHexAux s.toList
+
+def toByte (n : Nat) : Byte := ⟨n % 256, Nat.mod_lt _ (by decide)⟩
+def bytesHex (l : List Byte) : String := hexOf (l.map Fin.val)
+
+def parseTy : String → Option IntTy
+  | "u8" => some ⟨1, false⟩ | "i8" => some ⟨1, true⟩
+  | "u16" => some ⟨2, false⟩ | "i16" => some ⟨2, true⟩
+  | "u32" => some ⟨4, false⟩ | "i32" => some ⟨4, true⟩
+  | "u64" => some ⟨8, false⟩ | "i64" => some ⟨8, true⟩
+  | "f32" => some ⟨4, false⟩ | "f64" => some ⟨8, false⟩
+  | _ => none
+
+def parseEndian : String → Option Endian
+  | "L" => some .little | "B" => some .big | _ => none
+
+def showE {α : Type} (f : α → String) : Except Fault α → String
+  | .ok a => f a
+  | .error e => "fault:" ++ e.name
+
+def optInt : Option Int → String
+  | some v => toString v | none => "none"
+
+def binLine (t : IntTy) (e : Endian) (v : Int) : String :=
+  let w := write native t [] v e
+  let r : Except Fault (Option Int × Option Int) := do
+    let out ← w
+    let (a, rest) ← read native t out e
+    let (b, _) ← read native t rest e
+    pure (a, b)
+  let s := swap native t v
+  let ss := s >>= swap native t
+  let c := convert native t v e
+  let cc := c >>= fun x => convert native t x e
+  s!"w={showE bytesHex w} r={showE (fun p => optInt p.1) r} r2={showE (fun p => optInt p.2) r} s={showE toString s} ss={showE toString ss} c={showE toString c} cc={showE toString cc}"
+
+def binsDigest (t : IntTy) (e : Endian) (lo : Int) (n : Nat) : String :=
+  let h := (List.range n).foldl (fun h (i : Nat) => fnv h (binLine t e (lo + (i : Int)))) fnvInit
+  "D " ++ hex64 h
+
+/-- read until failure (at most `fuel` values) -/
+def readAll (t : IntTy) (e : Endian) : Nat → List Byte → List String → List String
+  | 0, _, acc => acc.reverse
+  | fuel + 1, s, acc =>
+    match read native t s e with
+    | .ok (some v, rest) => readAll t e fuel rest (toString v :: acc)
+    | .ok (none, _) => ("none" :: acc).reverse
+    | .error f => (("fault:" ++ f.name) :: acc).reverse
+
+def seqLine (t : IntTy) (e : Endian) (vs : List Int) : String :=
+  match vs.foldlM (fun s v => write native t s v e) [] with
+  | .ok out => s!"w={bytesHex out} r={",".intercalate (readAll t e (vs.length + 1) out [])}"
+  | .error f => "fault:" ++ f.name
+
+def handleBin (toks : List String) : Option String :=
+  match toks with
+  | ["native"] => some (match native with | .little => "little" | .big => "big")
+  | ["bin", ty, e, v] => do
+    let t ← parseTy ty; let e ← parseEndian e; let v ← v.toInt?
+    if t.InRange v then some (binLine t e v) else none
+  | ["bins", ty, e, lo, n] => do
+    let t ← parseTy ty; let e ← parseEndian e; let lo ← lo.toInt?; let n ← n.toNat?
+    if n = 0 ∨ ¬ t.InRange lo ∨ ¬ t.InRange (lo + n - 1) then none else some (binsDigest t e lo n)
+  | ["seq", ty, e, vs] => do
+    let t ← parseTy ty; let e ← parseEndian e; let vs ← parseIntList vs
+    if vs.all (fun v => t.InRange v) then some (seqLine t e vs) else none
+  | ["rd", ty, e, hx] => do
+    let t ← parseTy ty; let e ← parseEndian e; let bs ← parseHex hx
+    some (",".intercalate (readAll t e (bs.length + 1) (bs.map toByte) []))
+  | ["revmem", hx] => do
+    let bs ← parseHex hx
+    some (showE hexOf (reverseMem bs))
+  | _ => none
+
+def handle (toks : List String) : String :=
+  match handleBin toks with
+  | some r => r
+  | none => "bad-op"
+
+def main : IO Unit := Proto.run handle
+
 end Fcppt.C15.Drv
